@@ -28,6 +28,7 @@ for p in sorted(glob.glob("/verif/selftest/benign/*.patch")):
                 row[pid] = what
     finally:
         subprocess.run(["git", "-C", "/repo", "checkout", "--", "."])
+        subprocess.run(["git", "-C", "/repo", "clean", "-fdq", "source"])
     mat[name] = row
     print(name, "SILENT" if not row else "ALARM in " + ",".join(row), flush=True)
     for k, v in row.items():
